@@ -40,7 +40,41 @@ type cell struct {
 	CliCA   bool   `json:"cliCA"`
 	PeerMax int    `json:"peerMax"`
 	Plain   bool   `json:"plain"`
-	Cfg     string `json:"cfg"` // ok | badCA | badKey
+	Cfg     string `json:"cfg"`   // ok | badCA | badKey
+	Valid   string `json:"valid"` // label of the server certificate's validity period (valid | expired | justExpired | notYet | soon | endsSoon)
+	Nb      int    `json:"nb"`    // NotBefore - now and NotAfter - now in seconds, taken when the attempt starts
+	Na      int    `json:"na"`
+}
+
+// period of a server certificate by label
+type period struct{ nb, na time.Duration }
+
+var periods = map[string]period{
+	"valid":       {-time.Hour, 12 * time.Hour},
+	"expired":     {-48 * time.Hour, -24 * time.Hour},
+	"justExpired": {-time.Hour, -time.Minute},
+	"notYet":      {24 * time.Hour, 48 * time.Hour},
+	"soon":        {2 * time.Minute, 12 * time.Hour}, // becomes valid in two minutes
+	"endsSoon":    {-2 * time.Minute, 2 * time.Minute},
+}
+var minted time.Time
+
+// stamp fills the validity offsets of a cell as they are right now
+func stamp(c *cell) {
+	if c.Valid == "" {
+		c.Valid = "valid"
+	}
+	p := periods[c.Valid]
+	c.Nb = int(time.Until(minted.Add(p.nb)) / time.Second)
+	c.Na = int(time.Until(minted.Add(p.na)) / time.Second)
+}
+
+// srvLeaf is the server certificate of a cell: kind (chain / names) and validity period
+func srvLeaf(c cell) *pki.Leaf {
+	if c.Valid != "" && c.Valid != "valid" {
+		return srv[c.SrvCert+"/"+c.Valid]
+	}
+	return srv[c.SrvCert]
 }
 
 type obs struct {
@@ -59,22 +93,27 @@ var (
 
 func mint() {
 	caA, caB = pki.NewCA("verif-ca-a"), pki.NewCA("verif-ca-b")
+	minted = time.Now()
+	in := func(label string, o pki.Opts) pki.Opts {
+		o.NotBefore, o.NotAfter = minted.Add(periods[label].nb), minted.Add(periods[label].na)
+		return o
+	}
 	good := pki.Opts{DNS: []string{"collector.verif"}, IPs: []net.IP{net.ParseIP("127.0.0.1")}}
-	past := good
-	past.NotBefore, past.NotAfter = time.Now().Add(-48*time.Hour), time.Now().Add(-24*time.Hour)
-	future := good
-	future.NotBefore, future.NotAfter = time.Now().Add(24*time.Hour), time.Now().Add(48*time.Hour)
 	self := good
 	self.SelfSign = true
 	srv = map[string]*pki.Leaf{
-		"trusted":     pki.Issue(caA, "collector.verif", good),
-		"otherCA":     pki.Issue(caB, "collector.verif", good),
-		"selfSigned":  pki.Issue(caA, "collector.verif", self),
-		"expired":     pki.Issue(caA, "collector.verif", past),
-		"notYetValid": pki.Issue(caA, "collector.verif", future),
-		"wrongSAN":    pki.Issue(caA, "collector.verif", pki.Opts{DNS: []string{"wrong.verif"}, IPs: []net.IP{net.ParseIP("10.9.9.9")}}),
-		"noSAN":       pki.Issue(caA, "collector.verif", pki.Opts{}),
+		"trusted":    pki.Issue(caA, "collector.verif", in("valid", good)),
+		"otherCA":    pki.Issue(caB, "collector.verif", in("valid", good)),
+		"selfSigned": pki.Issue(caA, "collector.verif", in("valid", self)),
+		"wrongSAN":   pki.Issue(caA, "collector.verif", in("valid", pki.Opts{DNS: []string{"wrong.verif"}, IPs: []net.IP{net.ParseIP("10.9.9.9")}})),
+		"noSAN":      pki.Issue(caA, "collector.verif", in("valid", pki.Opts{})),
 	}
+	for label := range periods {
+		if label != "valid" {
+			srv["trusted/"+label] = pki.Issue(caA, "collector.verif", in(label, good))
+		}
+	}
+	srv["otherCA/soon"] = pki.Issue(caB, "collector.verif", in("soon", good))
 	cpast := pki.Opts{Client: true, NotBefore: time.Now().Add(-48 * time.Hour), NotAfter: time.Now().Add(-24 * time.Hour)}
 	cli = map[string]*pki.Leaf{
 		"trusted": pki.Issue(caA, "exporter", pki.Opts{Client: true}),
@@ -180,7 +219,7 @@ func exporterCell(c cell) obs {
 			sawIPFIX <- saw
 		}()
 	case c.Proto == "tls":
-		cert, err := tls.X509KeyPair(srv[c.SrvCert].CertPEM, srv[c.SrvCert].KeyPEM)
+		cert, err := tls.X509KeyPair(srvLeaf(c).CertPEM, srvLeaf(c).KeyPEM)
 		if err != nil {
 			panic(err)
 		}
@@ -207,7 +246,7 @@ func exporterCell(c cell) obs {
 		}()
 		sawIPFIX <- false
 	default: // dtls server
-		cert, err := tls.X509KeyPair(srv[c.SrvCert].CertPEM, srv[c.SrvCert].KeyPEM)
+		cert, err := tls.X509KeyPair(srvLeaf(c).CertPEM, srvLeaf(c).KeyPEM)
 		if err != nil {
 			panic(err)
 		}
@@ -278,6 +317,79 @@ func exporterCell(c cell) obs {
 	}
 	closeSrv()
 	return o
+}
+
+// exporterHistory: one TLS endpoint (certificate from CA A, session tickets enabled as by default) that lives
+// across several exporting processes of this application.  The first one trusts CA A, completes its
+// session and stays connected long enough for the connection check to read what the server sends
+// after the handshake; the following ones are configured with CA B only / with another ServerName /
+// with CA A again.  Each cell describes the endpoint's certificate as THAT exporter's configuration sees it.
+type attempt struct {
+	c cell
+	o obs
+}
+
+func exporterHistory(peerMax int, untrustedFirst bool) []attempt {
+	cert, err := tls.X509KeyPair(srv["trusted"].CertPEM, srv["trusted"].KeyPEM)
+	if err != nil {
+		panic(err)
+	}
+	ln, err := tls.Listen("tcp", "127.0.0.1:0", &tls.Config{Certificates: []tls.Certificate{cert}, MinVersion: tls.VersionTLS10, MaxVersion: tlsVersion(peerMax)})
+	if err != nil {
+		panic(err)
+	}
+	defer ln.Close()
+	go func() {
+		for {
+			conn, err := ln.Accept()
+			if err != nil {
+				return
+			}
+			go func() {
+				defer conn.Close()
+				buf := make([]byte, 4096)
+				conn.SetReadDeadline(time.Now().Add(3 * time.Second))
+				for {
+					if _, err := conn.Read(buf); err != nil {
+						return
+					}
+				}
+			}()
+		}
+	}()
+	type step struct {
+		ca   *pki.CA
+		name string
+	}
+	steps := []step{{caA, "match"}, {caB, "match"}, {caA, "mismatch"}, {caB, "unset"}, {caA, "unset"}, {caB, "match"}}
+	if untrustedFirst {
+		steps = append([]step{{caB, "match"}}, steps...)
+	}
+	var out []attempt
+	for _, st := range steps {
+		c := cell{Side: "exporter", Proto: "tls", SrvCert: "trusted", SrvName: st.name, CliCert: "none", PeerMax: peerMax, Cfg: "ok"}
+		if st.ca == caB {
+			c.SrvCert = "otherCA" // the endpoint's certificate does not chain to what this exporter trusts
+		}
+		stamp(&c)
+		o := obs{}
+		tcfg := &exporter.ExporterTLSClientConfig{ServerName: serverName(st.name), CAData: st.ca.CertPEM}
+		ep, err := exporter.InitExportingProcess(exporter.ExporterInput{CollectorAddress: ln.Addr().String(), CollectorProtocol: "tcp", ObservationDomainID: 1,
+			TLSClientConfig: tcfg, CheckConnInterval: 40 * time.Millisecond})
+		if err == nil {
+			o.Established = true
+			o.Version = peerMax
+			if _, serr := ep.SendSet(templateSet()); serr == nil {
+				o.Sent = true
+			}
+			time.Sleep(250 * time.Millisecond) // several connection checks: post-handshake messages are read
+			ep.CloseConnToCollector()
+		} else {
+			o.Detail = err.Error()
+		}
+		out = append(out, attempt{c, o})
+	}
+	return out
 }
 
 // --------------------------------------------------------------- collector side (real collector)
@@ -382,18 +494,22 @@ func main() {
 	thorough := *tier == "thorough"
 	var cells []cell
 	names := []string{"match", "unset", "mismatch"}
-	certs := []string{"trusted", "otherCA", "selfSigned", "expired", "notYetValid", "wrongSAN", "noSAN"}
+	type sv struct{ kind, valid string }
+	certs := []sv{{"trusted", "valid"}, {"otherCA", "valid"}, {"selfSigned", "valid"}, {"wrongSAN", "valid"}, {"noSAN", "valid"},
+		{"trusted", "expired"}, {"trusted", "notYet"},
+		// the boundary of the validity period: no tolerance either way
+		{"trusted", "justExpired"}, {"trusted", "soon"}, {"trusted", "endsSoon"}, {"otherCA", "soon"}}
 	for _, sc := range certs {
 		for _, sn := range names {
 			for _, pm := range []int{11, 12, 13} {
 				cc := "none"
-				if (len(sc)+len(sn)+pm)%3 == 0 {
+				if (len(sc.kind)+len(sc.valid)+len(sn)+pm)%3 == 0 {
 					cc = "trusted" // the exporter presenting a client certificate changes nothing about server verification
 				}
-				cells = append(cells, cell{Side: "exporter", Proto: "tls", SrvCert: sc, SrvName: sn, CliCert: cc, PeerMax: pm})
+				cells = append(cells, cell{Side: "exporter", Proto: "tls", SrvCert: sc.kind, Valid: sc.valid, SrvName: sn, CliCert: cc, PeerMax: pm})
 			}
-			if thorough || sn != "unset" || sc == "trusted" || sc == "expired" {
-				cells = append(cells, cell{Side: "exporter", Proto: "dtls", SrvCert: sc, SrvName: sn, CliCert: "none", PeerMax: 12})
+			if thorough || sn != "unset" || sc.kind == "trusted" {
+				cells = append(cells, cell{Side: "exporter", Proto: "dtls", SrvCert: sc.kind, Valid: sc.valid, SrvName: sn, CliCert: "none", PeerMax: 12})
 			}
 		}
 	}
@@ -440,16 +556,26 @@ func main() {
 				}
 			}()
 			if c.Side == "exporter" {
-				results[i] = exporterCell(c)
+				stamp(&cells[i])
+				results[i] = exporterCell(cells[i])
 			} else {
+				stamp(&cells[i])
 				results[i] = collectorCell(c)
 			}
 		}(i, c)
 	}
 	wg.Wait()
 	for i, c := range cells {
-		w.Emit(vt.Ev{"e": "Cell", "cell": c, "obs": results[i]})
+		w.Emit(vt.Ev{"e": "Cell", "srv": -1, "cell": c, "obs": results[i]})
+	}
+	// histories: several exporting processes, one after the other, against ONE long-lived endpoint
+	nh := 0
+	for srvID, pm := range []int{13, 12, 13} {
+		for _, a := range exporterHistory(pm, srvID == 2) {
+			w.Emit(vt.Ev{"e": "Cell", "srv": srvID, "cell": a.c, "obs": a.o})
+			nh++
+		}
 	}
 	w.Close()
-	vt.PrintSummary(vt.Summary{Events: w.Events(), Traces: 1, Evaluations: len(cells), Distinct: len(cells)})
+	vt.PrintSummary(vt.Summary{Events: w.Events(), Traces: 1, Evaluations: len(cells) + nh, Distinct: len(cells) + nh})
 }
